@@ -1103,7 +1103,7 @@ def job_simulate(job):
                 si += 1
             cur["s"] = Scripted(prefix, sparse)
             try:
-                result = Simulator(N).simulate(program, [], 1)
+                result = Simulator(N).simulate(program, [g for _n, g in job.get("sim_goals", [])], 1)
             except Exception as ex:
                 runs.append({"exc": type(ex).__name__, "msg": str(ex)[:200], "prefix": list(prefix)})
                 log = cur["s"].log
@@ -1121,8 +1121,20 @@ def job_simulate(job):
                         curg.append(ev)
                 groups.append(curg)
 
+                gname = {str(symengine.sympify(g)): n_ for n_, g in job.get("sim_goals", [])}
+
                 def st(d):
-                    return {str(k): float_frac(v) for k, v in d.items()}
+                    # goal values that the result object adds to every state are reported under their auxiliary names
+                    out_ = {}
+                    for k, v in d.items():
+                        ks = str(k)
+                        if ks in gname and not ks.isidentifier():
+                            out_[gname[ks]] = float_frac(v)
+                        else:
+                            out_[ks] = float_frac(v)
+                            if ks in gname:
+                                out_[gname[ks]] = float_frac(v)
+                    return out_
 
                 def evs(g):
                     return [{"kind": e["kind"], "idx": e["idx"], "weights": [float_frac(w) for w in e["weights"]]} for e in g]
